@@ -44,6 +44,8 @@ func checkC01(ctx *Ctx, r *Report) {
 	c01GoByteSliceTrap(ctx, r)
 	c01UnionClassifiedWithoutNull(ctx, r)
 	c01OmitEmptyOnCollections(ctx, r)
+	c01GoDateTimeKeepsText(ctx, r)
+	c01EnumNullMember(ctx, r)
 	c01LoopLocalResult(ctx, r)
 	c12UnionWrapperClassified(ctx, r)
 	c01AbsentDefaultedField(ctx, r)
@@ -70,6 +72,9 @@ func checkC11(ctx *Ctx, r *Report) {
 	c11ThirdRound(ctx, r)
 	c11FourthRound(ctx, r)
 	c02PythonMethodNamesEscaped(ctx, r)
+	// Python keeps an empty optional collection (`is not None`), Go's bare `omitempty` drops it
+	c01OmitEmptyOnCollections(ctx, r)
+	c01GoDateTimeKeepsText(ctx, r)
 	c06NullableGuardExact(ctx, r)
 	c11HintMonotone(ctx, r)
 	c11GoPointerLast(ctx, r)
@@ -1937,6 +1942,122 @@ func c01GoByteSliceTrap(ctx *Ctx, r *Report) {
 	r.Count("array formatters of the Go jenny", 1)
 	r.Check(special, "kinds/go-byte-slice-trap", "golang.typeFormatter.formatArray element kind uint8", fd.Pos(), "lists of uint8 are not declared as a byte slice",
 		"formatArray declares a list of uint8 as `[]uint8`: encoding/json encodes every slice of uint8 as a base64 string — {\"levels\":[1,2,3]} is re-encoded as {\"levels\":\"AQID\"}")
+}
+
+// c01GoDateTimeKeepsText: a string with the date-time format is a string on the wire. A Go type that parses it has to
+// write back the text it read: `time.Time` does not (its MarshalJSON writes the shortest fraction and `Z` for a zero
+// offset), so "…05.000Z" and "…05+00:00" come back "…05Z". Every place of the Go jenny that picks a type name under the
+// date-time hint is an obligation; declaring such strings as `string` (no such place) satisfies the rule.
+func c01GoDateTimeKeepsText(ctx *Ctx, r *Report) {
+	p := ctx.Pkg("internal/jennies/golang")
+	if p == nil {
+		r.Undecided("anchor lost: internal/jennies/golang")
+		return
+	}
+	n := 0
+	for _, f := range p.Syntax {
+		for _, d := range f.Decls {
+			fd, ok := d.(*ast.FuncDecl)
+			if !ok || fd.Body == nil {
+				continue
+			}
+			ast.Inspect(fd.Body, func(m ast.Node) bool {
+				is, ok := m.(*ast.IfStmt)
+				if !ok || !strings.Contains(exprString(is.Cond), "HintStringFormatDateTime") {
+					return true
+				}
+				for _, st := range is.Body.List {
+					as, ok := st.(*ast.AssignStmt)
+					if !ok || len(as.Rhs) != 1 {
+						continue
+					}
+					lit, ok := ast.Unparen(as.Rhs[0]).(*ast.BasicLit)
+					if !ok || lit.Kind != token.STRING {
+						continue
+					}
+					n++
+					r.Check(!strings.Contains(lit.Value, "time.Time"), "kinds/go-datetime-keeps-text", "golang."+fd.Name.Name+" type of a date-time string", lit.Pos(),
+						"date-time strings are declared with a type that writes back the text it read",
+						"a string with the date-time format is declared `time.Time`, whose MarshalJSON writes the shortest fraction and `Z` for a zero offset: {\"at\":\"2024-01-02T03:04:05.000Z\"} is re-encoded {\"at\":\"2024-01-02T03:04:05Z\"} — not JSON-equal, and not what Python (which keeps the string) writes")
+				}
+				return true
+			})
+		}
+	}
+	r.Count("type names picked under the date-time hint (Go)", n)
+}
+
+// c01EnumNullMember: JSON Schema and OpenAPI describe a nullable enum by listing `null` among the values. `null` is not
+// a member (it has no name and no literal in any target language): every loop of a schema front-end that turns the
+// values of the schema library into ast.EnumValue leaves the iteration when the value is nil, before it builds the
+// member.
+func c01EnumNullMember(ctx *Ctx, r *Report) {
+	n := 0
+	for _, rel := range []string{"internal/jsonschema", "internal/openapi"} {
+		p := ctx.Pkg(rel)
+		if p == nil {
+			r.Undecided("anchor lost: " + rel)
+			continue
+		}
+		info := p.TypesInfo
+		for _, f := range p.Syntax {
+			for _, d := range f.Decls {
+				fd, ok := d.(*ast.FuncDecl)
+				if !ok || fd.Body == nil {
+					continue
+				}
+				ast.Inspect(fd.Body, func(m ast.Node) bool {
+					rs, ok := m.(*ast.RangeStmt)
+					if !ok {
+						return true
+					}
+					vid, ok := rs.Value.(*ast.Ident)
+					if !ok || vid.Name == "_" {
+						return true
+					}
+					// the ranged values are `any` values (what the schema libraries hold in `Enum`)
+					if it, ok := info.TypeOf(vid).Underlying().(*types.Interface); !ok || !it.Empty() {
+						return true
+					}
+					var member *ast.CompositeLit
+					ast.Inspect(rs.Body, func(k ast.Node) bool {
+						if cl, ok := k.(*ast.CompositeLit); ok && member == nil && namedName(info.TypeOf(cl)) == "EnumValue" {
+							member = cl
+						}
+						return true
+					})
+					if member == nil {
+						return true
+					}
+					n++
+					guarded := false
+					for _, st := range rs.Body.List {
+						if st.Pos() > member.Pos() {
+							break
+						}
+						is, ok := st.(*ast.IfStmt)
+						if !ok || !endsInExit(is.Body) {
+							continue
+						}
+						if be, ok := ast.Unparen(is.Cond).(*ast.BinaryExpr); ok && be.Op == token.EQL {
+							x, y := ast.Unparen(be.X), ast.Unparen(be.Y)
+							isVar := func(e ast.Expr) bool { id, ok := e.(*ast.Ident); return ok && objOf(info, id) == objOf(info, vid) }
+							isNil := func(e ast.Expr) bool { id, ok := e.(*ast.Ident); return ok && id.Name == "nil" }
+							if (isVar(x) && isNil(y)) || (isNil(x) && isVar(y)) {
+								guarded = true
+							}
+						}
+					}
+					r.Check(guarded, "frontier/enum-null-member", rel+"."+fd.Name.Name+" members from "+exprString(rs.X), rs.Pos(),
+						"`null` listed among the values of an enum is skipped before a member is built from it",
+						rel+"."+fd.Name.Name+" builds an enum member from every value of "+exprString(rs.X)+", `null` included: {\"enum\": [\"a\", \"b\", null]} (the way JSON Schema and OpenAPI 3.0 write a nullable enum) gives a member named `<nil>` without value — the generated Go does not parse and the run fails, the Python class has a member `_nil_ = None`")
+					return true
+				})
+			}
+		}
+	}
+	r.Count("loops building enum members from schema values", n)
+	r.Floor("loops building enum members from schema values", 2)
 }
 
 // c11HuntedRules: (a) the names held by a discriminator mapping are object names; Python classes are named
